@@ -265,7 +265,13 @@ class Gen:
         if k < 0.76:
             return ("Gr", self.lst(depth - 1, loops, infunc, ncalls))
         if k < 0.86:
-            return ("Su", self.lst(depth - 1, 0, infunc, ncalls))
+            body = self.lst(depth - 1, 0, infunc, ncalls)
+            if "opts" in self.feats and (body[0] == "N" or (body[0] == "S" and len(body[1]) == 1 and body[1][0][0] == "N")):
+                # bash's execute_in_subshell strips the `!` flag from a subshell whose whole body is one negated
+                # command before running it, so under `set -e` failures inside `( ! cmd )` are not exempt (a bash
+                # quirk contradicting the property's wording); keep such bodies out of the errexit runs
+                body = ("S", [("P",), body])
+            return ("Su", body)
         if k < 0.93 and ncalls:
             return self.call(ncalls)
         return self.simple(loops, infunc, ncalls)
